@@ -275,9 +275,8 @@ class Sig:
         return r + self.params
 
     def returnable(self):
-        ok = lambda t: t.kind in ('int', 'bool', 'f32', 'f64', 'c64', 'c128', 'str') or \
-            (t.kind == 'struct' and all(ok(f) for f in t.fields)) or (t.kind == 'arr' and ok(t.elem))
-        return all(ok(t) for t in self.results)
+        """every result kind can be given to Return(...); values travel through arg.I2V/toValue and reflect.makeFuncStub"""
+        return True
 
     def whenable(self):
         """signatures for which goom's argument equality coincides with equality of the canonical tokens"""
